@@ -101,7 +101,8 @@ theorem count_le_one_of_nodup (l : List Nat) (h : l.Nodup) (a : Nat) : l.count a
       simp only [List.count_cons, beq_iff_eq, hxa, if_false]; omega
 
 /-- C34 (close): for every sequence of API events on a Request/Response — attaching streams, wrapping by a compressing
-    handler, writes that succeed, fail, or panic in Read, ResetBody/Reset/ReleaseBody/CloseBodyStream, and the
+    handler, writes that succeed, fail, or panic in Read, ResetBody/Reset/ReleaseBody/CloseBodyStream whose Close call succeeds OR
+    returns an error, and the
     compressing goroutine finishing at ANY point — no stream is ever closed twice, the attached plain stream is not
     closed yet, and every stream that was attached and is no longer attached has been closed exactly once. -/
 theorem closed_exactly_once (evs : List CloseEv) (hfresh : FreshTrace [] evs) :
@@ -122,14 +123,15 @@ theorem closed_exactly_once (evs : List CloseEv) (hfresh : FreshTrace [] evs) :
 
 /-- every path that ends with the object being written (without panic), reset or released — the last event is a
     `detachClose` — leaves EVERY stream ever attached closed exactly once -/
-theorem closed_exactly_once_after_release (evs : List CloseEv) (hfresh : FreshTrace [] (evs ++ [.detachClose])) :
-    let s := closeRun (evs ++ [.detachClose])
+theorem closed_exactly_once_after_release (evs : List CloseEv) (ce : Bool)
+    (hfresh : FreshTrace [] (evs ++ [.detachClose ce])) :
+    let s := closeRun (evs ++ [.detachClose ce])
     s.att = .none ∧ ∀ id, id ∈ s.everSet → closeCount s id = 1 := by
   intro s
   have hinv0 : CloseInv (closeRun evs) := by
     apply closeFold_inv evs {} closeInv_init
     -- a prefix of a fresh trace is fresh
-    have : ∀ (l : List CloseEv) (seen : List Nat), FreshTrace seen (l ++ [.detachClose]) → FreshTrace seen l := by
+    have : ∀ (l : List CloseEv) (seen : List Nat), FreshTrace seen (l ++ [.detachClose ce]) → FreshTrace seen l := by
       intro l; induction l with
       | nil => intro _ _; trivial
       | cons e t ih =>
@@ -141,22 +143,25 @@ theorem closed_exactly_once_after_release (evs : List CloseEv) (hfresh : FreshTr
   have hatt : s.att = .none := by rw [hs]; exact (detach_inv _ hinv0).2.1
   refine ⟨hatt, ?_⟩
   intro id hset
-  exact (closed_exactly_once (evs ++ [.detachClose]) hfresh).2.2 id hset (by rw [hatt]; simp) (by rw [hatt]; simp)
+  exact (closed_exactly_once (evs ++ [.detachClose ce]) hfresh).2.2 id hset (by rw [hatt]; simp) (by rw [hatt]; simp)
 
 /-! ### non-vacuity: the five paths named by the property, and concrete encodings -/
 
 -- success / write error: Write ends with closeBodyStream
-example : closeCount (closeRun [.set 7, .detachClose]) 7 = 1 := by decide
+example : closeCount (closeRun [.set 7, .detachClose false]) 7 = 1 := by decide
 -- Read panic in Response.Write (recovered, not closed there), then the response is reset
-example : closeCount (closeRun [.set 7, .panicWrite]) 7 = 0 ∧ closeCount (closeRun [.set 7, .panicWrite, .detachClose]) 7 = 1 := by decide
+example : closeCount (closeRun [.set 7, .panicWrite]) 7 = 0 ∧ closeCount (closeRun [.set 7, .panicWrite, .detachClose false]) 7 = 1 := by decide
 -- Reset before write, then a second Reset / ReleaseBody: still once
-example : closeCount (closeRun [.set 7, .detachClose, .detachClose, .noop]) 7 = 1 := by decide
+example : closeCount (closeRun [.set 7, .detachClose false, .detachClose false, .noop]) 7 = 1 := by decide
+-- a stream whose Close returns an ERROR is detached all the same: a later Reset does not close it again
+example : closeCount (closeRun [.set 7, .detachClose true, .detachClose false, .detachClose true]) 7 = 1 := by decide
+example : (closeRun [.set 7, .detachClose true]).att = .none := by decide
 -- replacing a stream closes the old one; release closes the new one
-example : (closeRun [.set 1, .set 2, .detachClose]).log = [2, 1] := by decide
+example : (closeRun [.set 1, .set 2, .detachClose false]).log = [2, 1] := by decide
 -- compressed wrapper: the goroutine finishes before or after the consumer closes — once either way
-example : closeCount (closeRun [.set 3, .compress, .writerFinish 3, .detachClose]) 3 = 1 := by decide
-example : closeCount (closeRun [.set 3, .compress, .detachClose, .writerFinish 3]) 3 = 1 := by decide
-example : FreshTrace [] [.set 3, .compress, .detachClose, .writerFinish 3, .set 4, .panicWrite, .detachClose] := by
+example : closeCount (closeRun [.set 3, .compress, .writerFinish 3, .detachClose false]) 3 = 1 := by decide
+example : closeCount (closeRun [.set 3, .compress, .detachClose false, .writerFinish 3]) 3 = 1 := by decide
+example : FreshTrace [] [.set 3, .compress, .detachClose false, .writerFinish 3, .set 4, .panicWrite, .detachClose false] := by
   simp [FreshTrace]
 example : writeBodyChunked [ofString "ab", [], ofString "c"] = ofString "2\r\nab\r\n1\r\nc\r\n0\r\n" := by
   decide +kernel
